@@ -43,7 +43,10 @@ def run(chk):
     chk.analysed(f)
     from ..canon import ifchain
 
+    from ..canon import sink_tail
+
     f = ifchain(f, {"hs_to_add"})  # these rules read the placement dispatch as an if / elif chain
+    f = sink_tail(f, lambda t: norm(t).startswith("hs_to_add =="))  # a shared attach loop after the chain belongs to every branch
     chk.call(r1_only_hydrogens, chk, f)
     branches = chk.call(r2_pairing, chk, f)
     if branches is not chk.REFUSED:
@@ -201,7 +204,8 @@ def r4_formula(chk, f):
     loop = _loop(f)
     asg = assignments(f.node)
     atomvar = norm(loop.target)
-    hs = [s for s in walk_no_nested(loop) if isinstance(s, ast.Assign) and norm(s.targets[0]) == "hs_to_add"]
+    hs_all = [s for s in walk_no_nested(loop) if isinstance(s, ast.Assign) and norm(s.targets[0]) == "hs_to_add"]
+    hs = [s for s in hs_all if isinstance(s.value, ast.Call)] if len(hs_all) > 1 else hs_all
     chk.require(len(hs) == 1, f"{f.key}: hint-free assignment of hs_to_add not found")
     fm = hs[0].value
     args = sorted(norm(a) for a in fm.args) if isinstance(fm, ast.Call) and call_name(fm) == "max" else []
@@ -214,8 +218,22 @@ def r4_formula(chk, f):
     chk.decide(bd in ([f"ceil(self.bonded_valence({atomvar}))"], [f"math.ceil(self.bonded_valence({atomvar}))"], [f"int(ceil(self.bonded_valence({atomvar})))"]), "C16.R4", f"{f.key}:bonded", f.where(),
                "bonded = ceil(bonded valence)", f"bonded = {bd}; the statement is ceil(bonded valence)")
     # the hint wins, and is consumed
-    hint = [g for g in walk_no_nested(loop) if isinstance(g, ast.If) and "__implicit_hydrogens" in norm(g.test)]
-    ok = len(hint) == 1 and "hs_to_add :=" in norm(hint[0].test) and "is not None" in norm(hint[0].test) and any(x is fm for b in hint[0].orelse for x in ast.walk(b))
+    from ..canon import path_conditions, strip_walrus
+
+    # names bound to the popped hint (walrus target or plain local)
+    HN = set()
+    for n in walk_no_nested(loop):
+        v, t = (n.value, n.target.id) if isinstance(n, ast.NamedExpr) else ((n.value, n.targets[0].id) if isinstance(n, ast.Assign) and isinstance(n.targets[0], ast.Name) else (None, None))
+        if v is not None and isinstance(v, ast.Call) and "__implicit_hydrogens" in norm(v) and ".pop(" in norm(v):
+            HN.add(t)
+
+    def conds(s):
+        return [norm(strip_walrus(c)) for c in path_conditions(f.node, s)]
+
+    # the formula runs only where the hint is known to be absent; where it is present it is the count
+    ok = any(f"{h} is None" in conds(hs[0]) for h in HN) and (
+        "hs_to_add" in HN or any(isinstance(s.value, ast.Name) and s.value.id in HN and f"{s.value.id} is not None" in conds(s) for s in hs_all))
+    hint = [g for g in walk_no_nested(loop) if isinstance(g, ast.If) and any(h in names_in(g.test) for h in HN)]
     chk.decide(ok, "C16.R4", f"{f.key}:hint-takes-precedence", f.where(hint[0] if hint else None), "a drawing hint, when present, is the count; the formula is the fallback",
                "the drawing hint does not take precedence over the formula (or the formula is not its fallback)")
     sel = [v for v in asg.get("atoms", []) if isinstance(v, ast.ListComp)]
@@ -245,6 +263,8 @@ def r5_length(chk, f):
     for i, c in enumerate(doc_sorted(f.node, adds)):
         coord = c.args[1] if len(c.args) > 1 else None
         p = provenance(f.node, coord, f.params(), asg) if coord is not None else set()
+        from ..canon import dominating_def
+
         names = set()
         todo, seen = [coord], set()
         # a name bound by a for-loop that encloses this call site means that loop's iterable here
@@ -260,6 +280,10 @@ def r5_length(chk, f):
                     if n.id in enclosing:
                         todo.append(enclosing[n.id])
                         continue
+                    dd = dominating_def(f.node, c, n.id)
+                    if dd is not None:
+                        todo.append(dd)
+                        continue
                     for v in asg.get(n.id, []):
                         if isinstance(v, ast.AST):
                             todo.append(v)
@@ -274,6 +298,9 @@ def r5_length(chk, f):
             if isinstance(e, ast.Name):
                 if e.id in enclosing:
                     return resolve(enclosing[e.id], depth + 1)
+                dd = dominating_def(f.node, c, e.id) if e.id not in ("a_coord", "L", "vec") else None
+                if dd is not None:
+                    return resolve(dd, depth + 1)
                 vals = [v for v in asg.get(e.id, []) if isinstance(v, ast.AST)]
                 if len(vals) == 1 and e.id not in ("a_coord", "L", "vec"):
                     return resolve(vals[0], depth + 1)
@@ -288,8 +315,13 @@ def r5_length(chk, f):
                 out.append(e)
             return out
 
-        tl = terms(coord, []) if coord is not None else []
-        offset_ok = any(norm(t) == "a_coord" for t in tl) and any("L" in names_in(t) for t in tl if norm(t) != "a_coord")
+        # a literal list of positions: every element must be such an offset
+        rc = resolve(coord) if coord is not None else None
+        exprs = list(rc.elts) if isinstance(rc, (ast.List, ast.Tuple)) and rc.elts else ([coord] if coord is not None else [])
+        offset_ok = bool(exprs)
+        for ex in exprs:
+            tl = terms(ex, [])
+            offset_ok = offset_ok and any(norm(t) == "a_coord" for t in tl) and any("L" in names_in(t) for t in tl if norm(t) != "a_coord")
         ok = "L" in names and "a_coord" in names and offset_ok
         chk.decide(ok, "C16.R5", f"{f.key}:coordinate-{i}:depends-on-position-and-length", f.where(c), f"`{short(coord, 40) if coord is not None else None}` derives from a_coord and L",
                    f"the coordinate `{short(coord, 50) if coord is not None else None}` of a new hydrogen does not depend on " + " / ".join(x for x, y in (("the atom's position", "a_coord" in names), ("the bond length L", "L" in names)) if not y))
